@@ -112,7 +112,7 @@ pub fn eval(case: &J) -> Outcome {
     let rels = world2();
     let base = match guarded(|| { let q = parse(&sql).map_err(|e| e.to_string())?; Relation::try_from(QueryWithRelations::new(&q, &rels)).map_err(|e| e.to_string()) }) {
         Ok(Ok(r)) => r, Ok(Err(_)) => { out.tag("trivial"); out.tag("compile-err"); return out; }
-        Err((loc, msg)) => { out.tag("trivial"); out.fail(&format!("C18/dialect/compile-panic/{}", site(&loc, &msg)), format!("{sql}: {msg}")); return out; } };
+        Err((loc, msg)) => { out.tag("trivial"); out.fail(&format!("C18/dialect/compile-panic/{}{}", site(&loc, &msg), compile_panic_cause(&sql, &loc, &msg).map(|c| format!("/{c}")).unwrap_or_default()), format!("{sql}: {msg}")); return out; } };
     let rename: Vec<String> = case["rename"].as_array().unwrap().iter().map(|x| x.as_str().unwrap().to_string()).collect();
     let rel = if rename.is_empty() { base } else {
         let fields: Vec<String> = base.schema().iter().map(|f| f.name().to_string()).collect();
